@@ -14,7 +14,7 @@ from vf import vexpr
 from vf.vlog import parse_module, VTS, VParseError
 from vf.hw import res
 from migen import *
-from migen.fhdl.structure import _Assign, _Operator
+from migen.fhdl.structure import _Assign, _Operator, _Fragment as _FragmentT
 from migen.fhdl.specials import Memory, WRITE_FIRST, READ_FIRST, NO_CHANGE
 from migen.fhdl.tools import list_clock_domains
 from litex.gen.sim.core import Evaluator
@@ -135,15 +135,20 @@ def _walk_assigns(stmts, acc):
 
 def tv_design(name, d, ios, regular_comb=True):
     t0 = time.time()
-    f0 = d.get_fragment(); ios = set(ios)
+    f0 = d.get_fragment() if not isinstance(d, _FragmentT) else d; ios = set(ios)
     for cdn in sorted(list_clock_domains(f0)):
         try: f0.clock_domains[cdn]
         except KeyError:
             cd = ClockDomain(cdn); f0.clock_domains.append(cd); ios |= {cd.clk, cd.rst}
-    if len(f0.clock_domains) > 1: return [res(f"tv[{name}]", "ensures", UNKNOWN, 0, "", info="multi-clock designs are not in the validated subset")]
-    cd = list(f0.clock_domains)[0] if len(f0.clock_domains) else None
-    # FHDL side first (the printer mutates Memory port modes of multi-clock memories)
-    inputs = [s for s in ios if cd is None or s is not cd.clk]
+    cds = list(f0.clock_domains)
+    clks = {cd_.clk for cd_ in cds}
+    cd = cds[0] if len(cds) == 1 else None
+    # FHDL side first (the printer mutates Memory port modes of multi-clock memories); declared modes recorded before convert()
+    declared_mode = {}; port_dom = {}
+    for sp in f0.specials:
+        if isinstance(sp, Memory):
+            for port in sp.ports: declared_mode[port] = port.mode; port_dom[port] = getattr(port.clock, "cd", None)      # convert() lowers ClockSignal in the (shared) port objects
+    inputs = [s for s in ios if s not in clks]
     fts = TS(copy_fragment(f0), inputs=inputs)
     r = convert(copy_fragment(f0), ios=ios, name="top", regular_comb=regular_comb)      # REAL back end (regular_comb=False: the per-target printer used for simulation flows)
     try:
@@ -165,37 +170,77 @@ def tv_design(name, d, ios, regular_comb=True):
     # memory port registers: pair by port ordinal
     syncs = []
     for st in fts.f.sync.values(): _walk_assigns(st, syncs)
-    special = []
+    special = []; rewritten = []; single_clock_rewrites = []
     for mem in fts.mems:
         mn = nm(mem)
         for n_, port in enumerate(mem.ports):
             if port.async_read: continue
-            if port.mode == WRITE_FIRST:
-                cands = [a.l for a in syncs if a.r is port.adr and isinstance(a.l, Signal) and a.l not in fts.orig_signals]
+            dm = declared_mode.get(port, port.mode)
+            cands = [a.l for a in syncs if a.r is port.adr and isinstance(a.l, Signal) and a.l not in fts.orig_signals]
+            if dm == WRITE_FIRST and port.mode == WRITE_FIRST:
                 if len(cands) == 1 and f"{mn}_adr{n_}" in vts.var: special.append((cands[0], f"{mn}_adr{n_}"))
+            elif dm == WRITE_FIRST:
+                # the printer rewrote the mode of a port of a multi-clock memory (memory.py: "Set Port Mode to Read-First when several
+                # Ports with different Clocks"): FHDL keeps an address register + combinational read, the Verilog a data register
+                if len(cands) == 1 and f"{mn}_dat{n_}" in vts.var: rewritten.append((mem, port, cands[0], f"{mn}_dat{n_}"))
+                if len({port_dom.get(p_) for p_ in mem.ports}) < 2: single_clock_rewrites.append(f"{mn}_dat{n_}")    # only multi-clock memories fall under the listed finding
             else:
                 if f"{mn}_dat{n_}" in vts.var and port.dat_r in fts.state: special.append((port.dat_r, f"{mn}_dat{n_}"))
     state_f = set(fts.state)
+    rw_regs = {id(x[2]) for x in rewritten}
     link_state = [(s, n) for s, n in link if s in state_f and vm.nets[n]["kind"] == "reg" and not any(s is sp[0] for sp in special)] + special
-    unlinked = [s for s in fts.state if s not in memcells and not any(s is a for a, _ in link_state)]
+    unlinked = [s for s in fts.state if s not in memcells and id(s) not in rw_regs and not any(s is a for a, _ in link_state)]
+    # registers created by the lowering of specials inside convert() (MultiReg flops) are different objects on the two sides: they are
+    # paired structurally - where an already linked pair is defined on both sides by a plain register (comb: o = reg; sync: reg' = reg2),
+    # those registers are linked too (a wrong pairing can only make the step obligation fail, never pass)
+    dom_clk0 = {}
+    for cdn in fts.next:
+        try: dom_clk0[cdn] = nm(fts.f.clock_domains[cdn].clk)
+        except KeyError: dom_clk0[cdn] = None
+    fid = {fts.var[s_].get_id(): s_ for s_ in fts.var}; vid = {v_.get_id(): n_ for n_, v_ in vts.var.items()}
+    linked_v = {n for _, n in link_state}
+    changed = True
+    while changed and unlinked:
+        changed = False
+        pairs = [(fts.comb_eq[s_], vts.comb_eq[n_]) for s_, n_ in link if s_ in fts.comb_eq and n_ in vts.comb_eq]
+        for cdn, fm in fts.next.items():
+            vnx = vts.next.get(dom_clk0[cdn], {})
+            pairs += [(fm[s_], vnx[n_]) for s_, n_ in link_state if s_ in fm and n_ in vnx]
+        for fe, ve in pairs:
+            fe = z3.simplify(fe); ve = z3.simplify(ve)
+            s2 = fid.get(fe.get_id()); n2 = vid.get(ve.get_id())
+            if s2 is not None and n2 is not None and any(s2 is u for u in unlinked) and n2 not in linked_v and vm.nets[n2]["kind"] == "reg" and vm.nets[n2]["width"] == s2.nbits:
+                link_state.append((s2, n2)); linked_v.add(n2); unlinked = [u for u in unlinked if u is not s2]; changed = True
     cs = list(fts.comb_constraints()) + [vts.var[n] == e for n, e in vts.comb_eq.items()]
     driven = set(vts.comb_eq) | {n for d_ in vts.next.values() for n in d_}
     cs += [vts.var[n] == vts.init[n] for n, dd in vm.nets.items() if dd["kind"] == "reg" and n not in driven and n not in vm.ports and n in vts.init]
     eq_now = [fts.var[s] == vts.var[n] for s, n in link_state]
     eq_now += [fts.rd(s) == vts.var[n] for s, n in link if s in fts.inputs and vm.ports.get(n) == "input"]
     eq_now += [fts.var[sig] == vts.memvar[mn][i] for sig, (mn, i) in memcells.items() if mn in vts.memvar]
-    fnext = {}
-    for nx in fts.next.values(): fnext.update(nx)
-    clk = nm(cd.clk) if cd is not None else None
-    vnext = vts.next.get(clk, {}); vmnext = vts.mem_next.get(clk, {})
+    eq_now += [fts.rd(port.dat_r) == vts.var[vn] for _, port, _, vn in rewritten]      # relational link of a rewritten port: data register == mem[address register]
+    # per clock domain: the FHDL next-state function of the domain against the always @(posedge <that domain's clock>) blocks
+    dom_clk = {}
+    for cdn in fts.next:
+        try: dom_clk[cdn] = nm(fts.f.clock_domains[cdn].clk)
+        except KeyError: dom_clk[cdn] = None
     goals = {}; goals_norst = {}
     spec_sigs = {id(a) for a, _ in special}
-    for s, n in link_state:
-        (goals_norst if id(s) in spec_sigs else goals)[f"next.{n}"] = fnext.get(s, fts.var[s]) == vnext.get(n, vts.var[n])
+    vclks_used = set()
+    for cdn, fm in fts.next.items():
+        clk = dom_clk[cdn]; vnext = vts.next.get(clk, {}); vmnext = vts.mem_next.get(clk, {}); vclks_used.add(clk)
+        tag = "" if len(fts.next) == 1 else f"@{cdn}"
+        for s, n in link_state:
+            if len(fts.next) > 1 and s not in fm and n not in vnext: continue
+            (goals_norst if id(s) in spec_sigs else goals)[f"next{tag}.{n}"] = fm.get(s, fts.var[s]) == vnext.get(n, vts.var[n])
+        for sig, (mn, i) in memcells.items():
+            if mn in vts.memvar and (len(fts.next) == 1 or sig in fm or (mn, i) in vmnext):
+                goals_norst[f"next{tag}.{mn}[{i}]"] = fm.get(sig, fts.var[sig]) == vmnext.get((mn, i), vts.memvar[mn][i])
+    # registers or memory words clocked in the Verilog text by a clock that is no FHDL domain's clock
+    stray = [c for c in set(vts.next) | set(vts.mem_next) if c not in vclks_used and (vts.next.get(c) or vts.mem_next.get(c))]
+    if not fts.next:
+        for s, n in link_state: goals[f"next.{n}"] = fts.var[s] == vts.var[n]
     for s, n in link:
         if vm.ports.get(n) == "output" and s not in state_f: goals[f"out.{n}"] = fts.var[s] == vts.var[n]
-    for sig, (mn, i) in memcells.items():
-        if mn in vts.memvar: goals_norst[f"next.{mn}[{i}]"] = fnext.get(sig, fts.var[sig]) == vmnext.get((mn, i), vts.memvar[mn][i])
     out = []
     bad = []; unk = []
     solver = z3.Solver(); solver.add(*cs); solver.add(*eq_now)
@@ -205,7 +250,8 @@ def tv_design(name, d, ios, regular_comb=True):
         elif rr != z3.unsat: unk.append(g)
     # memory words and memory-port registers: compared with the reset input low (the simulator's MemoryToArray + insert_resets restores
     # memory contents and port registers while rst is high, the emitted memory template does not: tracked as a listed finding below)
-    rst_low = [fts.rd(cd.rst) == 0] if cd is not None and cd.rst is not None else []
+    rsts = [cd_.rst for cd_ in fts.f.clock_domains if cd_.rst is not None]
+    rst_low = [fts.rd(r_) == 0 for r_ in rsts]
     # memories whose depth is not a power of two: the comparison is made for in-range port addresses (out of range the simulator's
     # Array proxy clamps to the last word while the Verilog access falls outside the array; stated in ASSUMPTIONS)
     addr_ok = []
@@ -213,15 +259,61 @@ def tv_design(name, d, ios, regular_comb=True):
         for port in mem.ports:
             if (1 << port.adr.nbits) > mem.depth and port.adr in fts.var:
                 addr_ok.append(z3.ULT(fts.rd(port.adr), z3.BitVecVal(mem.depth, port.adr.nbits)))
+    # write ports of one memory on one clock: a colliding write (same word, same edge, different ports) is a race between always blocks in
+    # IEEE 1364; the comparison is made for collision-free steps (stated in ASSUMPTIONS)
+    for mem in fts.mems:
+        wps = [p_ for p_ in mem.ports if p_.we is not None]
+        for pa_, pb_ in itertools.combinations(wps, 2):
+            if port_dom.get(pa_) == port_dom.get(pb_):
+                addr_ok.append(z3.Not(z3.And(fts.rd(pa_.we) != 0, fts.rd(pb_.we) != 0, fts.rd(pa_.adr) == fts.rd(pb_.adr))))
     rbad = []
     for g, e in goals_norst.items():
         solver.push(); solver.set("timeout", 30000); solver.add(*rst_low); solver.add(*addr_ok); solver.add(z3.Not(e)); rr = solver.check(); solver.pop()
         if rr == z3.sat: bad.append(g)
         elif rr != z3.unsat: unk.append(g)
-        if cd is not None and cd.rst is not None:
-            solver.push(); solver.set("timeout", 30000); solver.add(*addr_ok); solver.add(fts.rd(cd.rst) == 1); solver.add(z3.Not(e)); rr = solver.check(); solver.pop()
+        if rsts:
+            solver.push(); solver.set("timeout", 30000); solver.add(*addr_ok); solver.add(z3.Or(*[fts.rd(r_) == 1 for r_ in rsts])); solver.add(z3.Not(e)); rr = solver.check(); solver.pop()
             if rr == z3.sat: rbad.append(g)
     goals.update(goals_norst)
+    # rewritten ports of multi-clock memories: for every non-empty set T of simultaneously ticking domains the relation
+    # "Verilog data register == FHDL mem[address register]" is re-established, PROVIDED no write that takes effect in this step hits the
+    # address the read port holds after the step (inside that scenario the two semantics differ: listed finding)
+    rw_diff = []
+    if rewritten:
+        doms = list(fts.next)
+        subsets = [t for k in range(1, len(doms) + 1) for t in itertools.combinations(doms, k)] if len(doms) <= 3 else [(d_,) for d_ in doms] + [tuple(doms)]
+        for T in subsets:
+            sub = []
+            for cdn in T:
+                for s_, e_ in fts.next[cdn].items(): sub.append((fts.var[s_], e_))
+            for mem, port, areg, vn in rewritten:
+                rcd = [cdn for cdn in doms if areg in fts.next[cdn]]
+                e_dat = fts.comb_eq.get(port.dat_r)
+                if e_dat is None or len(rcd) != 1: unk.append(f"rewritten-port.{vn}"); continue
+                f_after = z3.substitute(e_dat, *sub) if sub else e_dat
+                v_after = vts.next.get(dom_clk[rcd[0]], {}).get(vn, vts.var[vn]) if rcd[0] in T else vts.var[vn]
+                adr_after = z3.substitute(fts.var[areg], *sub) if sub else fts.var[areg]
+                hits = []
+                for wp in mem.ports:
+                    if wp.we is None: continue
+                    wcd = port_dom.get(wp)
+                    if wcd not in T: continue
+                    hits.append(z3.And(fts.rd(wp.we) != 0, fts.rd(wp.adr) == adr_after))
+                nohit = z3.Not(z3.Or(*hits)) if hits else z3.BoolVal(True)
+                gname = f"next@{'+'.join(T)}.{vn}(rewritten port)"
+                goals[gname] = z3.Implies(nohit, f_after == v_after)
+                solver.push(); solver.set("timeout", 30000); solver.add(*rst_low); solver.add(*addr_ok); solver.add(nohit); solver.add(f_after != v_after); rr = solver.check(); solver.pop()
+                if rr == z3.sat: bad.append(gname)
+                elif rr != z3.unsat: unk.append(gname)
+                if hits:
+                    solver.push(); solver.set("timeout", 30000); solver.add(*rst_low); solver.add(*addr_ok); solver.add(z3.Not(nohit)); solver.add(f_after != v_after); rr = solver.check()
+                    if rr == z3.sat and vn in single_clock_rewrites:
+                        bad.append(f"port mode of a single-clock memory changed by the printer: {vn} (declared Write-First, emitted Read-First; a write to the address being read returns the old word)")
+                    elif rr == z3.sat:
+                        m_ = solver.model()
+                        rw_diff.append(dict(ticking=list(T), port=vn, verilog_data_register_after=str(m_.eval(v_after, model_completion=True)), simulator_read_value_after=str(m_.eval(f_after, model_completion=True)),
+                                            address=str(m_.eval(adr_after, model_completion=True))))
+                    solver.pop()
     init_bad = []; port_noinit = []
     for s, n in link_state:
         if n in vts.init:
@@ -231,17 +323,22 @@ def tv_design(name, d, ios, regular_comb=True):
             (port_noinit if n in vm.ports else init_bad).append(n + "(no initialiser)")
     for sig, (mn, i) in memcells.items():
         if mn in vts.mem_init and vts.mem_init[mn][i] != (sig.reset.value & ((1 << sig.nbits) - 1)): init_bad.append(f"{mn}[{i}]")
-    st = PROVED if not bad and not unk and not unlinked else (NOINPUT if bad else UNKNOWN)
-    out.append(res(f"tv.step[{name}]", "ensures", st, time.time() - t0, "z3-5.1.0(api)", goals=len(goals), linked_state=len(link_state), memory_words=len(memcells),
-                   info=(f"differing: {bad[:4]}" if bad else "") + (f" undecided: {unk[:3]}" if unk else "") + (f" state without Verilog counterpart: {[str(fts.var[s]) for s in unlinked[:3]]}" if unlinked else ""),
-                   formula="forall state, inputs: (state_fhdl == state_verilog) => outputs equal and next_state equal, per clock domain"))
+    st = PROVED if not bad and not unk and not unlinked and not stray else (NOINPUT if bad or stray else UNKNOWN)
+    out.append(res(f"tv.step[{name}]", "ensures", st, time.time() - t0, "z3-5.1.0(api)", goals=len(goals), linked_state=len(link_state), memory_words=len(memcells), clock_domains=len(fts.next),
+                   info=(f"differing: {bad[:4]}" if bad else "") + (f" undecided: {unk[:3]}" if unk else "") + (f" state without Verilog counterpart: {[str(fts.var[s]) for s in unlinked[:3]]}" if unlinked else "")
+                        + (f" Verilog registers clocked by a signal that is no FHDL clock domain's clock: {stray}" if stray else ""),
+                   formula="forall state, inputs: (state_fhdl == state_verilog) => outputs equal and next_state equal, per clock domain (each FHDL domain against the always @(posedge <its clock>) blocks)"))
     out.append(res(f"tv.init[{name}]", "ensures", PROVED if not init_bad else NOINPUT, 0, "executed", info=f"initial value mismatch: {init_bad[:4]}" if init_bad else ""))
     if port_noinit:
         out.append(res(f"finding.port-reg-init[{name}]", "finding-witness", VIOLATED, 0, "executed", differing=port_noinit[:3],
                        what="a register that is a module port and has a non-zero reset value is declared without initialiser ('output reg [..] x,'): its Verilog power-up value is not the simulator's initial value until a reset pulse is applied"))
-    if goals_norst and cd is not None and cd.rst is not None:
+    if goals_norst and rsts:
         out.append(res(f"finding.memory-under-reset[{name}]", "finding-witness", VIOLATED if rbad else PROVED, 0, "z3-5.1.0(api)", differing=rbad[:3],
                        what="while the reset input is high the simulator (MemoryToArray + insert_resets) restores memory words to their init values and resets memory-port registers; the emitted Verilog memory template has no reset"))
+    if [x for x in rewritten if x[3] not in single_clock_rewrites]:
+        out.append(res(f"finding.multiclock-memory-read-first[{name}]", "finding-witness", VIOLATED if rw_diff else PROVED, 0, "z3-5.1.0(api)", witness=rw_diff[:2],
+                       what="memory with ports in different clock domains: the printer rewrites every port to Read-First (memory.py, 'FIXME'), the simulator keeps the declared Write-First mode (address register + transparent read): "
+                            "when a write takes effect at the address a synchronous read port holds, the simulated read data follows the write, the Verilog data register keeps the old word"))
     return out
 
 def _corpus():
@@ -351,6 +448,37 @@ def _corpus():
             def __init__(self): self.tx = Signal(name="tx"); self.rx = Signal(name="rx")
         pads = P(); d = _uart.RS232PHYTX(pads, 2**29); return d, {pads.tx} | set(d.sink.flatten())
     C.append(("RS232PHYTX", txphy))
+    # third batch: multi-clock designs (every FHDL clock domain against the always blocks of its clock; dual-clock memories)
+    from litex.gen.genlib.cdc import BusSynchronizer
+    from migen.genlib.cdc import PulseSynchronizer
+    def afifo(depth, buffered=False):
+        d = ClockDomainsRenamer({"write": "sys", "read": "rd"})(stream.AsyncFIFO([("data", 8)], depth, buffered)); return d, eps(d)
+    C.append(("AsyncFIFO(4,sys->rd)", lambda: afifo(4))); C.append(("AsyncFIFO(8,buffered,sys->rd)", lambda: afifo(8, True)))
+    C.append(("ClockDomainCrossing(sys->rd)", lambda: (lambda d: (d, eps(d)))(stream.ClockDomainCrossing([("data", 8)], "sys", "rd", depth=4))))
+    C.append(("BusSynchronizer(4,sys->rd)", lambda: (lambda d: (d, {d.i, d.o}))(BusSynchronizer(4, "sys", "rd", timeout=8))))
+    C.append(("PulseSynchronizer(sys->rd)", lambda: (lambda d: (d, {d.i, d.o}))(PulseSynchronizer("sys", "rd"))))
+    class DualClockMem(Module):
+        """two write-capable Write-First ports in different domains plus an asynchronous read port"""
+        def __init__(self):
+            mem = Memory(8, 4, init=[1, 2, 3, 4]); self.specials += mem
+            self.pa = pa = mem.get_port(write_capable=True, clock_domain="sys", we_granularity=4); self.pb = pb = mem.get_port(write_capable=True, has_re=True, clock_domain="rd")
+            self.pc = pc = mem.get_port(async_read=True); self.specials += pa, pb, pc
+            self.cnt = Signal(3); self.sync.rd += self.cnt.eq(self.cnt + pb.dat_r[0])
+    def dcm():
+        d = DualClockMem(); io = set()
+        for p_ in (d.pa, d.pb, d.pc): io |= {x for x in (p_.adr, p_.dat_r, p_.we, p_.dat_w, p_.re) if x is not None}
+        return d, io | {d.cnt}
+    C.append(("dual-clock-memory(2 write ports)", dcm))
+    class TwoWritePorts(Module):
+        """two write-capable ports on ONE clock: Write-First (transparent, also for the other port's write), Read-First and No-Change declared modes"""
+        def __init__(self, mode_b):
+            mem = Memory(8, 4, init=[9, 8, 7, 6]); self.specials += mem
+            self.pa = pa = mem.get_port(write_capable=True); self.pb = pb = mem.get_port(write_capable=True, mode=mode_b, has_re=True); self.specials += pa, pb
+    def twp(mode_b):
+        d = TwoWritePorts(mode_b); io = set()
+        for p_ in (d.pa, d.pb): io |= {x for x in (p_.adr, p_.dat_r, p_.we, p_.dat_w, p_.re) if x is not None}
+        return d, io
+    C.append(("two-write-port-memory(wf,wf)", lambda: twp(WRITE_FIRST))); C.append(("two-write-port-memory(wf,rf)", lambda: twp(READ_FIRST))); C.append(("two-write-port-memory(wf,nc)", lambda: twp(NO_CHANGE)))
     return C
 
 def c_design(name, regular_comb=True):
@@ -405,5 +533,5 @@ def cases(tier):
 
 ASSUMPTIONS = ["vf/vexpr.py + vf/vlog.py are a hand-written specification of IEEE 1364-2005 for the emitted subset (self-determined/context widths, sign rules, $signed, concatenation, part-select writes, memories, $readmemh); anything outside the grammar is reported undecided",
                "the simulator side of symbolic obligations is fhdl2smt (transcription of Evaluator), guarded by exhaustive comparison with the REAL Evaluator on narrow instances and by co-simulation in the other properties",
-               "corpus of programs (not all programs): single-clock designs; Instance and MultiReg specials, multi-clock memories (printer rewrites the port mode) and timing are outside the validated subset; memories of non-power-of-two depth are compared for in-range port addresses (out of range the simulator clamps to the last word)",
+               "corpus of programs (not all programs), single- and multi-clock (every FHDL clock domain against the always blocks of its clock; MultiReg flops paired structurally; ports of multi-clock memories whose mode the printer rewrites are related by 'data register == mem[address register]' for every set of simultaneously ticking domains, outside the listed write-hits-read-address scenario); Instance specials (see C01_instance) and timing are outside the transition-system comparison; memories of non-power-of-two depth are compared for in-range port addresses (out of range the simulator clamps to the last word); two write ports of one memory on one clock are compared for collision-free steps (a colliding write is a race between always blocks in IEEE 1364)",
                "known finding classes (inherited Migen semantics: intermediate overflow under a context-opaque consumer; LiteX: negative constants printed as unsigned literals) are tracked as listed findings"]
